@@ -31,6 +31,12 @@ def step (args : List String) : String :=
       | "FileEvent" => render (readFileEvent b) encFileEvent
       | "EventRecord" => render (readRecord b) encRecord
       | "String" => render (readString b) encString
+      | "VaultMeta" => render (readVaultMeta b) encVaultMeta
+      | "Auth" => render (readAuth b) encAuth
+      | "Summary" => render (readSummary b) encSummary
+      | "SharedAccess" => render (readShared b) encShared (fun v => match v with | .write (_ :: _) => true | _ => false)
+      | "Header" => render (readHeader b) encHeader (fun h => match h.shared with | .write (_ :: _) => true | _ => false)
+      | "Vault" => render (readVault b) encVault (fun v => match v.header.shared with | .write (_ :: _) => true | _ => false)
       | _ => "bad-op"
   | _ => "bad-op"
 
